@@ -44,7 +44,7 @@ func engineFuzzy(ctx *Ctx) {
 			}
 			g := ctx.G(d)
 			if g%3 == 1 {
-				sp.Platforms = 1 // entries with platform tags, searched under platform requests (see c07Phase)
+				sp.Platforms = 1   // entries with platform tags, searched under platform requests (see c07Phase)
 				sp.TieHeavy = true // ... among them copies of one text declared for different platforms
 			}
 			if g%10 == 7 { // sizes of real deployments, just above powers of two in most cases
